@@ -737,7 +737,8 @@ def resolve_conflicted_decisions_list(path, base, decisions, strategy):
 
         # Just drop all decisions and add a decision to remove the entire range
         local_diff, remote_diff = collect_diffs(path, decisions)
-        custom_diff = [op_removerange(0, len(base))]
+        # (nothing to remove from an empty list)
+        custom_diff = [op_removerange(0, len(base))] if base else []
         decisions.decisions = []
         decisions.custom(path, local_diff, remote_diff, custom_diff, conflict=False, strategy=strategy)
 
